@@ -12,8 +12,12 @@ def core? (s : String) : Option Core :=
   match s.splitOn ":" with
   | [a, b, c] =>
     match a.toNat?, b.toNat?, c.toNat? with
-    | some a, some b, some c => some ⟨a, b, c⟩
+    | some a, some b, some c => some ⟨a, b, c, 0⟩
     | _, _, _ => none
+  | [a, b, c, d] =>   -- reimbursement tx: sender content and payer content
+    match a.toNat?, b.toNat?, c.toNat?, d.toNat? with
+    | some a, some b, some c, some d => some ⟨a, b, c, d⟩
+    | _, _, _, _ => none
   | _ => none
 
 def tx? (s : String) : Option Tx :=
@@ -21,7 +25,7 @@ def tx? (s : String) : Option Tx :=
   | [] => none
   | h :: rest =>
     match core? h, rest.mapM core? with
-    | some c, some subs => some { txId := c.txId, content := c.content, exp := c.exp, subs := subs }
+    | some c, some subs => some { txId := c.txId, content := c.content, exp := c.exp, subs := subs, payer := c.payer }
     | _, _ => none
 
 def blockOf (s : St) (id : Nat) : Option Block := s.univ.find? (fun b => b.hash == id)
